@@ -206,6 +206,10 @@ def main():
                 entry['masked'] = ('since fix 7111e68 stores sub-64-bit words as int64, astype(int) no longer meets a '
                                    'Python-int code inside the core domain (n_word<=52): reverting this fix alone '
                                    'changes nothing there')
+            if h.startswith('1135375'):
+                entry['masked'] = ('since fix 5d642c6 rounds the values on the Python-number path, the path that small '
+                                   'np.uint64 lists took before fix 1135375 no longer raises the spurious flag: the '
+                                   'original defect cannot come back by reverting 1135375 alone')
             index.append(entry)
             print('R%02d %s' % (n, line))
     finally:
